@@ -406,3 +406,166 @@ def replay_rle(w):
     except Exception as ex:
         return {'reproduced': None, 'line': 'native replay unavailable: %s' % ex}
     return {'reproduced': True if line.startswith('REPLAY panic') else (False if line.startswith('REPLAY ok') else None), 'line': line}
+
+
+# ================================================================================================ plain VARCHAR / BLOB block iterator
+@native(r'^<&\[u8\] as (bytes::)?Buf>::get_u32_le$', 'Buf::get_u32_le on a byte-slice cursor: the next four bytes, little endian; the cursor advances')
+def _get_u32_le(vm, m, callee, args):
+    from z3 import Concat, simplify
+    from .vm import NativePanic
+    cur = args[0]                      # &mut &[u8]
+    inner = vm._get(cur.cell, cur.path)
+    s = dv(vm, inner)
+    while isinstance(s, Ref):
+        s = dv(vm, s)
+    if len(s.items) < 4:
+        raise NativePanic('get_u32_le past the end of the buffer')
+    bs = [dv(vm, b).v for b in s.items[:4]]
+    v = simplify(Concat(bs[3], bs[2], bs[1], bs[0]))
+    vm._set(cur.cell, cur.path, Ref(Cell(Seq(s.items[4:], 'slice'))))
+    return BV(v, False)
+
+
+@crate_contract(r'^<T as BlobEncode>::from_byte_slice$', 'BlobEncode::from_byte_slice: the item is the byte slice itself (str / BlobRef are transparent wrappers)')
+def _from_byte_slice(vm, m, callee, args):
+    return args[0]
+
+
+@crate_contract(r'^<<<T as BlobEncode>::ArrayType as array::Array>::Builder as array::ArrayBuilder>::push$', 'ArrayBuilder::push(Some(item)) appends the item (variable-width array)')
+def _blob_push(vm, m, callee, args):
+    from .vm import UNIT
+    b = _builder(vm, args[0])
+    o = dv(vm, args[1])
+    while isinstance(o, Ref):
+        o = dv(vm, o)
+    if o.variant != 'Some':
+        b.fields[0].items.append(None)
+        return UNIT
+    x = dv(vm, o.fields[0])
+    while isinstance(x, Ref):
+        x = dv(vm, x)
+    b.fields[0].items.append(Seq(list(x.items), 'slice'))
+    return UNIT
+
+
+def run_blob(rep, thorough):
+    """PlainBlobBlockIterator::{next_batch_non_null, skip, remaining_items} from MIR on a block of three values with
+    concrete lengths (0-2 bytes each) and symbolic content, under read / skip / read patterns."""
+    from z3 import And
+    t0 = time.time()
+    try:
+        vm = make_vm(True)
+        pat = r'^blob_block_iterator::<impl at src/storage/secondary/block/blob_block_iterator\.rs:\d+:\d+: \d+:\d+>::%s$'
+        f_next = find_fn(vm.prog, pat % 'next_batch_non_null')
+        f_skip = find_fn(vm.prog, pat % 'skip')
+        f_rem = find_fn(vm.prog, pat % 'remaining_items')
+        f_new = find_fn(vm.prog, pat % 'new')
+    except (Inconclusive, Unsupported, MirSyntax) as ex:
+        rep.fail_inconclusive('PlainBlobBlockIterator: %s' % ex)
+        return
+    pats = [[('batch', 1), ('skip', 1), ('batch', 1)], [('skip', 1), ('batch', 2)], [('batch', 1), ('batch', 2)], [('batch', 2), ('batch', 1)], [('skip', 2), ('batch', 1)], [('batch', 3)]]
+    lenses = [(1, 1, 1), (0, 1, 2), (2, 0, 1), (1, 2, 0)] if not thorough else list(itertools.product((0, 1, 2), repeat=3))
+    n_ob = 0
+    for lens in lenses:
+        for pat_ in pats:
+            desc = 'PlainBlobBlockIterator over values of %s bytes: %s' % (list(lens), ', '.join('%s %d' % p for p in pat_))
+            data = [[BitVec('s%d_%d' % (i, j), 8) for j in range(l)] for i, l in enumerate(lens)]
+            ends, acc = [], 0
+            for l in lens:
+                acc += l
+                ends.append(acc)
+            block = []
+            for e in ends:
+                block += [BV(BitVecVal_(e >> (8 * k) & 255), False) for k in range(4)]
+            for d in data:
+                block += [BV(b, False) for b in d]
+            try:
+                outs = vm.run(f_new, [Seq(block, 'bytes'), mk_int(3, 'usize')])
+                if len(outs) != 1 or outs[0].kind != 'ret':
+                    raise Unsupported('new did not return')
+                itref = Ref(Cell(outs[0].value))
+                pc = tuple(outs[0].pc)
+                pos = 0
+                claims = []
+                bad_shape = False
+                for kind, c in pat_:
+                    if kind == 'skip':
+                        o = vm.run(f_skip, [itref, mk_int(c, 'usize')], pc=pc)
+                        if len(o) != 1 or o[0].kind != 'ret':
+                            raise Unsupported('skip forks or panics')
+                        itref, pc = o[0].args[0], tuple(o[0].pc)
+                        pos += c
+                        continue
+                    bld = Ref(Cell(Struct('BytesArrayBuilder', [Seq([])])))
+                    o = vm.run(f_next, [itref, Enum('Option', 'Some', [mk_int(c, 'usize')]), bld], pc=pc)
+                    if len(o) != 1:
+                        raise Unsupported('next_batch forks (%d paths)' % len(o))
+                    if o[0].kind != 'ret':
+                        bad_shape = 'panics: %s' % (o[0].value,)
+                        pc = tuple(o[0].pc)
+                        break
+                    itref, pc = o[0].args[0], tuple(o[0].pc)
+                    got = vm.deref_value(vm.deref_value(o[0].args[2]).fields[0]).items
+                    if concrete_int(o[0].value) != c or len(got) != c:
+                        bad_shape = 'returned %s rows, expected %d' % (concrete_int(o[0].value), c)
+                        break
+                    for j in range(c):
+                        g = got[j]
+                        want = data[pos + j]
+                        if g is None or len(g.items) != len(want):
+                            bad_shape = 'row %d has %s bytes, expected %d' % (pos + j, None if g is None else len(g.items), len(want))
+                            break
+                        claims += [vm.deref_value(x).v == w for x, w in zip(g.items, want)]
+                    if bad_shape:
+                        break
+                    pos += c
+                if not bad_shape:
+                    o = vm.run(f_rem, [itref], pc=pc)
+                    if len(o) == 1 and o[0].kind == 'ret' and concrete_int(o[0].value) != 3 - pos:
+                        bad_shape = 'remaining_items %s, expected %d' % (concrete_int(o[0].value), 3 - pos)
+            except (Unsupported, MirSyntax, KeyError, IndexError, AttributeError, TypeError) as ex:
+                rep.fail_inconclusive('%s: %s: %s' % (desc, type(ex).__name__, str(ex)[:300]))
+                continue
+            n_ob += 1
+            rep.cov['programs'] += 1
+            if bad_shape:
+                st, m = satisfiable(list(pc))
+                if st == 'unsat':
+                    continue
+                w = {'lens': list(lens), 'pattern': pat_, 'problem': bad_shape}
+            else:
+                st, m = check(list(pc), And(claims) if claims else BoolVal(True))
+                if st == 'unsat':
+                    rep.obligation(True)
+                    rep.sample({'obligation': desc, 'verdict': 'every value read back byte for byte, for every content'}, cap=4)
+                    continue
+                if st == 'unknown':
+                    rep.obligation(False)
+                    rep.fail_inconclusive('solver unknown: ' + desc)
+                    continue
+                w = {'lens': list(lens), 'pattern': pat_, 'problem': 'content differs'}
+            rp = replay_blob(w)
+            what = '%s: %s; native replay: %s' % (desc, w['problem'], rp.get('line'))
+            out = rep.counterexample('blob-iterator:%s' % ('after-skip' if any(k == 'skip' for k, _ in pat_) else 'sequential'), what[:500], {'desc': desc, 'witness': w, 'replay': rp}, rp['reproduced'])
+            rep.obligation(out == 'known')
+    rep.solver(time.time() - t0, n_ob)
+    rep.cov['functions_encoded'] = list(rep.cov.get('functions_encoded', [])) + ['PlainBlobBlockIterator::{new, next_batch_non_null, skip, remaining_items} (from MIR)']
+    if isinstance(rep.cov.get('bounds'), dict):
+        rep.cov['bounds']['plain varchar block iterator'] = 'three values with lengths %s (content symbolic), six read / skip / read patterns' % ('in {0,1,2}^3' if thorough else str(lenses))
+
+
+def BitVecVal_(x):
+    from z3 import BitVecVal
+    return BitVecVal(x, 8)
+
+
+def replay_blob(w):
+    from kani import run as krun
+    flat = []
+    for kind, c in w['pattern']:
+        flat += [0 if kind == 'batch' else 1, c]
+    try:
+        line = krun.native_replay('c06_blob_replay', [w['lens'], flat])
+    except Exception as ex:
+        return {'reproduced': None, 'line': 'native replay unavailable: %s' % ex}
+    return {'reproduced': True if line.startswith('REPLAY panic') else (False if line.startswith('REPLAY ok') else None), 'line': line}
